@@ -48,7 +48,7 @@ def run(ctx):
         "TolExps": {0, 2, 4, 6} if quick else {0, 1, 2, 3, 5, 7},
         "SmallTolExps": {9, 13} if quick else {8, 9, 11, 13, 15},
         "CellLevels": {12, 20, 28} if quick else {10, 14, 18, 22, 26, 29},
-        "Families": {q(f) for f in ("straight", "zigzag", "backtrack", "dups", "closed", "long", "random")},
+        "Families": {q(f) for f in ("straight", "zigzag", "backtrack", "dups", "closed", "long", "random", "nearend")},
         "Lengths": {1, 2, 3, 10, 60} if quick else {1, 2, 3, 5, 10, 60, 400},
         "SubTolExps": {1, 4, 9, 99} if quick else {0, 1, 2, 4, 6, 9, 12, 99},
         "SnapLevels": set(range(0, 31)),
